@@ -461,7 +461,9 @@ func (r *Run) Finish() int {
 		fmt.Printf("INCONCLUSIVE property=%s cannot encode evidence: %v\n", r.Prop, err)
 		return 2
 	}
-	if os.Getenv("VERIF_NO_EVIDENCE") == "" {
+	if p := os.Getenv("VERIF_EVIDENCE_PATH"); p != "" {
+		os.WriteFile(p, b, 0o644)
+	} else if os.Getenv("VERIF_NO_EVIDENCE") == "" {
 		os.WriteFile(filepath.Join(VerifDir, "evidence", r.Prop+".json"), b, 0o644)
 	}
 	fmt.Printf("SUMMARY property=%s tier=%s seed=%d evaluations=%d distinct_nontrivial=%d violations=%d known_observed=%d wall=%.1fs\n",
